@@ -173,12 +173,16 @@ def misc_session(rng, bufsize, window, fate, label):
                 data = _packed(vals if cnt > 1 else vals[0], pack, cnt)
                 s.op("swrite", chip, addr, nbytes, data,
                      lambda: s.mc.write_struct_field("sv", name, vals if cnt > 1 else vals[0], chip[0], chip[1]))
-        # per-core (vcpu) fields
+        # per-core (vcpu) fields, on this chip and then on another one (whose per-core blocks live elsewhere)
         vc = sim.vcpu
-        vbase = sim.chips[chip].vcpu_base
-        s.watch(chip, vbase, vc["size"] * 18)
         vnames = [n for n, (off, pack, cnt) in vc["fields"].items() if pack in PACK_SIZE and cnt == 1]
-        for name in rng.sample(vnames, 5):
+        chip0 = chip
+        other = rng.choice([c for c in sim.chips if c != chip0])
+        s.watch(other, sv["base"], sv["size"])
+        for name in rng.sample(vnames, 6):
+            chip = chip0 if rng.random() < 0.5 else other
+            vbase = sim.chips[chip].vcpu_base
+            s.watch(chip, vbase, vc["size"] * 18)
             off, pack, cnt = vc["fields"][name]
             p = rng.randrange(18)
             addr = [halves(vbase), off, p, vc["size"], halves(sim.sv_addr("vcpu_base"))]
@@ -187,6 +191,7 @@ def misc_session(rng, bufsize, window, fate, label):
             v = rng.randrange(256 ** PACK_SIZE[pack]) if pack.isupper() or pack == "v" else rng.randrange(-100, 100)
             s.op("swrite", chip, addr, PACK_SIZE[pack], _packed(v, pack, 1),
                  lambda: s.mc.write_vcpu_struct_field(name, v, chip[0], chip[1], p))
+        chip = chip0
         # across links
         if bufsize >= 4:
             for _ in range(3):
@@ -216,7 +221,7 @@ def run(chk):
     chk.design("MemoryDesign", "MemoryDesign_%s.cfg" % chk.tier, expect_actions=("Issue", "CompleteAny", "Finish"))
     traces = []
     # exhaustive alignments: address offsets 0..7, lengths 0..3B+3, buffer sizes, windows
-    bufs = chk.pick((4, 8, 12, 16), (4, 8, 12, 16, 32, 256))
+    bufs = chk.pick((4, 5, 7, 8, 10, 16), (4, 5, 6, 7, 8, 10, 12, 16, 32, 67, 254, 255, 256))
     for B in bufs:
         for window in chk.pick((1, 2, 4), (1, 2, 3, 4)):
             for off in range(8):
@@ -229,12 +234,12 @@ def run(chk):
                                          "rw B=%d W=%d off=%d faults=%s" % (B, window, off, rate)))
     # large transfers
     for i in range(chk.pick(6, 60)):
-        B = rng.choice((16, 64, 256))
+        B = rng.choice((16, 64, 255, 256, 250))
         n = rng.choice((1000, 1023, 1024, 2049, 4096 + rng.randrange(7)))
         traces.append(rw_session(rng, B, rng.randint(1, 8), rng.randrange(4), [n], faults(rng, rng.choice((0, 0.05))),
                                  "large B=%d n=%d" % (B, n)))
     for i in range(chk.pick(60, 1200)):
-        B = rng.choice((4, 8, 16, 256))
+        B = rng.choice((4, 7, 8, 16, 255, 256))
         rate = rng.choice((0, 0, 0.05, 0.15))
         traces.append(misc_session(rng, B, rng.randint(1, 4), faults(rng, rate), "misc B=%d faults=%s" % (B, rate)))
     ncmd = nop = 0
